@@ -2298,9 +2298,10 @@ class CppEmitter(Visitor):
                 step_cast = self._range_bound(e.args[2], result_ty.elt, ctx)
                 ctr = self._fresh_temp()
                 out, append = self._open_list_build(result_ty)
+                cond = self._range3_exit_test(e.args[2], ctr, stop_cast, step_cast)
                 self.writer.add_line(
                     f'for ({int_ty} {ctr} = {start_cast}; '
-                    f'{ctr} < {stop_cast}; {ctr} += {step_cast}) {{'
+                    f'{cond}; {ctr} += {step_cast}) {{'
                 )
                 self.writer.indent()
                 self.writer.add_line(f'{append(ctr)};')
@@ -3672,6 +3673,16 @@ class CppEmitter(Visitor):
                     at=stmt,
                 )
 
+    def _range3_exit_test(self, step_expr: Expr, ctr: str, stop: str, step: str) -> str:
+        """The exit test of a strided counter loop.  Its direction follows the sign
+        of the step: a descending ``range(10, 0, -3)`` runs while ``i > stop``."""
+        c = self._concrete_int_of(step_expr)
+        if c is not None and c > 0:
+            return f'{ctr} < {stop}'
+        if c is not None and c < 0:
+            return f'{ctr} > {stop}'
+        return f'({step} > 0 ? {ctr} < {stop} : {ctr} > {stop})'
+
     def _for_header(self, iterable: Expr, target: str, decl: str,
                     target_def, ctx) -> str:
         """The ``for (...)`` header for *iterable*, without the brace.
@@ -3698,9 +3709,10 @@ class CppEmitter(Visitor):
                 start = self._visit_expr(iterable.args[0], ctx)
                 stop = self._visit_expr(iterable.args[1], ctx)
                 step = self._visit_expr(iterable.args[2], ctx)
+                cond = self._range3_exit_test(iterable.args[2], target, stop, step)
                 return (
                     f'for ({decl} = {start}; '
-                    f'{target} < {stop}; {target} += {step})'
+                    f'{cond}; {target} += {step})'
                 )
             case _:
                 iter_str = self._visit_expr(iterable, ctx)
